@@ -71,20 +71,31 @@ func judge(c Case, w *vkit.W) {
 			if err := roman.Valid(text, 0); err != nil {
 				w.Fail(c, "valid-rejects-formatted-numeral", fmt.Sprintf("%s: Valid(%q) = %v (n=%d flags=%#x)", path, text, err, c.N, flagsSub))
 			}
-			got, err := roman.DefaultParser(text, 0)
-			if err != nil || got != n {
-				w.Fail(c, "round-trip-differs", fmt.Sprintf("%s: DefaultParser[string](%q) = %d, %v; want %d (flags=%#x)", path, text, uint64(got), err, c.N, flagsSub))
-			}
-			got, err = roman.DefaultParser([]byte(text), roman.RuleDisableEmptyAsZero)
-			if text == "" {
-				if err == nil {
-					w.Fail(c, "empty-accepted-under-rule", "DefaultParser(\"\", RuleDisableEmptyAsZero) returned no error")
+			parseString := func() {
+				got, err := roman.DefaultParser(text, 0)
+				if err != nil || got != n {
+					w.Fail(c, "round-trip-differs", fmt.Sprintf("%s: DefaultParser[string](%q) = %d, %v; want %d (flags=%#x)", path, text, uint64(got), err, c.N, flagsSub))
 				}
-			} else if err != nil || got != n {
-				w.Fail(c, "round-trip-differs", fmt.Sprintf("%s: DefaultParser[[]byte](%q) = %d, %v; want %d", path, text, uint64(got), err, c.N))
+			}
+			parseBytes := func() {
+				got, err := roman.DefaultParser(w.Scratch(text), roman.RuleDisableEmptyAsZero) // a reused caller buffer
+				if text == "" {
+					if err == nil {
+						w.Fail(c, "empty-accepted-under-rule", "DefaultParser(\"\", RuleDisableEmptyAsZero) returned no error")
+					}
+				} else if err != nil || got != n {
+					w.Fail(c, "round-trip-differs", fmt.Sprintf("%s: DefaultParser[[]byte](%q) = %d, %v; want %d", path, text, uint64(got), err, c.N))
+				}
+			}
+			if w.Flip() { // the order of the two instantiations alternates
+				parseString()
+				parseBytes()
+			} else {
+				parseBytes()
+				parseString()
 			}
 			var u roman.Number = 987654321
-			if err := u.UnmarshalText([]byte(text)); err != nil || u != n {
+			if err := u.UnmarshalText(w.Scratch(text)); err != nil || u != n {
 				w.Fail(c, "round-trip-differs", fmt.Sprintf("%s: UnmarshalText(%q) -> %d, %v; want %d", path, text, uint64(u), err, c.N))
 			}
 		} else {
@@ -107,6 +118,10 @@ func judge(c Case, w *vkit.W) {
 		if string(out) != want {
 			w.Fail(c, "not-canonical", fmt.Sprintf("DefaultFormatter(nil, %d, flags subset %#x) = %q, canonical numeral is %q", c.N, c.Flags, out, want))
 		}
+		w.RetainBytes(c, "DefaultFormatter(nil)", out, want) // kept as returned until the next numeral has been formatted
+		if pre, err := roman.DefaultFormatter(append(make([]byte, 0, 192), "n="...), n, libFlags(c.Flags)); err != nil || string(pre) != "n="+want {
+			w.Fail(c, "not-canonical", fmt.Sprintf("DefaultFormatter(\"n=\" with spare capacity, %d, flags subset %#x) = %q, %v; want %q", c.N, c.Flags, pre, err, "n="+want))
+		}
 		roundTrip("DefaultFormatter", string(out), c.Flags)
 	case "methods":
 		wantDef := ref.RomanNumeral(c.N, refFlags(c.Default))
@@ -126,6 +141,7 @@ func judge(c Case, w *vkit.W) {
 				w.Fail(c, "not-canonical", fmt.Sprintf("Sprintf(%q, %d) under DefaultFormat subset %#x = %q want %q", v.verb, c.N, c.Default, got, want))
 			}
 		}
+		w.RetainBytes(c, "MarshalText", b, wantDef)
 		roundTrip("MarshalText", string(b), c.Default)
 	default:
 		w.Fail(c, "bad-case", "unknown path "+c.Path)
@@ -175,7 +191,10 @@ func TestCheck(t *testing.T) {
 			defer configure(0, lim)()
 			r.Parallel(nSmall*128, 4096, func(w *vkit.W, lo, hi int64) {
 				for i := lo; i < hi; i++ {
-					c := Case{N: uint64(i / 128), Flags: int(i % 128), Limit: lim, Path: "formatter"}
+					// the grid is visited in a scrambled order (48271 is coprime to its size): consecutive numerals then belong to
+					// different numbers and often have the same length, which a parser that aliases its previous input would confuse
+					j := i * 48271 % (nSmall * 128) // a bijection on the (number, flag subset) grid
+					c := Case{N: uint64(j / 128), Flags: int(j % 128), Limit: lim, Path: "formatter"}
 					judge(c, w)
 					w.Eval(nontrivial(c.N, c.Flags))
 					if c.N > 1000 && c.Flags == 0x55 && w.WantSample() {
